@@ -538,7 +538,12 @@ def _line_cb(code, line):
     if s is not None and not s.aborting:
         me = getattr(threading.current_thread(), '_co', None)
         if me is not None and me is s.current:
+            if LINE_HOOK is not None:
+                LINE_HOOK(code, line, me)       # a check may act "as another thread would at this point"
             s.yield_point(('line', code.co_name, line))
+
+
+LINE_HOOK = None
 
 
 def watch_lines(*funcs):
